@@ -37,12 +37,27 @@ class _ReplyTo(object):
     name = "asl_workflow_reply_to-sim"
 
 
+_TMP_ROOT = []
+
+
+def _tmp_root():
+    """One scratch directory per process for the stores of all simulated engines, removed when the process exits
+    (a run builds thousands of engines; nothing may be left under /tmp)."""
+    if not _TMP_ROOT:
+        import atexit
+        import shutil
+        d = tempfile.mkdtemp(prefix="lsfsim_")
+        _TMP_ROOT.append(d)
+        atexit.register(shutil.rmtree, d, True)
+    return _TMP_ROOT[0]
+
+
 class Sim(object):
     def __init__(self, asl, data, tasks=None, sm_type="STANDARD", name="m", extra_machines=None):
         from asl_workflow_engine.state_engine import StateEngine
         import asl_workflow_engine.event_dispatcher as ED
         ED.Message = FakeMessage                 # what EventDispatcher.__init__ would bind from the messaging module
-        self.tmp = tempfile.mkdtemp(prefix="lsfsim_")
+        self.tmp = tempfile.mkdtemp(prefix="s", dir=_tmp_root())
         cwd = os.getcwd()
         os.chdir(self.tmp)
         try:
